@@ -175,15 +175,24 @@ def main(argv):
             seeds = []
             # the Lean model of what the Java back end emits for bit-field groups (Pdlv.Java): packets and structs without
             # parent made of bit-fields only; theorem hypotheses (java_packs_groups_up_to_32_bits / java_reads_groups_of_8_16_32_bits)
-            mje = be.model(i, T, [{"k": "javaenc", "v": v} for v in vals]) if not decl.get("parent_id") else None
+            mje = be.model(i, T, [{"k": "javaenc", "v": v} for v in vals])
             mje = mje if isinstance(mje, list) else None
             jh = {}
+            ser_class = False
             if mje is not None:
                 hy = be.model(i, T, [{"k": "len", "v": {}}])
                 jh = hy[0] if isinstance(hy, list) else {}
+                if decl.get("parent_id"):
+                    # java_child_serializer_writes_reference: the statement is about the reference-mode encoder
+                    ser_class = bool(jh.get("javachildwf"))
+                else:
+                    ser_class = bool((jh.get("javawf") or jh.get("javaencwf")) and jh.get("refwf"))
                 if any(x.get("r") != "panic" or x.get("h") not in UNMODELLED for x in mje):
-                    run.hist("theorem_hypotheses", "Java.wfBody&refWfBody:%s" % bool(jh.get("javawf") and jh.get("refwf")))
-                    run.hist("theorem_hypotheses", "Java.encWfItems&refWfBody:%s" % bool(jh.get("javaencwf") and jh.get("refwf")))
+                    if decl.get("parent_id"):
+                        run.hist("theorem_hypotheses", "Java.encWfChild:%s" % ser_class)
+                    else:
+                        run.hist("theorem_hypotheses", "Java.wfBody&refWfBody:%s" % bool(jh.get("javawf") and jh.get("refwf")))
+                        run.hist("theorem_hypotheses", "Java.encWfItems&refWfBody:%s" % bool(jh.get("javaencwf") and jh.get("refwf")))
             for n_v, (v, rf) in enumerate(zip(vals, refs)):
                 if rf.get("r") != "ok":
                     continue
@@ -203,10 +212,15 @@ def main(argv):
                                           % (T, (me.get("hex") or me.get("r"))[:40], r.get("hex", "")[:40]),
                                           {"pdl": d["text"], "type": T, "value": v, "java": r, "model": me, "corr": "corr:C19/java-chunk-model"},
                                           found_input=False)
-                        if (jh.get("javawf") or jh.get("javaencwf")) and jh.get("refwf"):
+                        if ser_class and decl.get("parent_id"):
+                            ie = be.model(i, T, [{"k": "enc", "v": v}])
+                            want = ie[0].get("hex") if isinstance(ie, list) and ie[0].get("r") == "ok" else None
+                        else:
+                            want = rf.get("hex")
+                        if ser_class and want is not None:
                             run.count("theorem_instances")
-                            if me.get("hex") != rf.get("hex"):
-                                run.violation("corr", "theorem java_packs_groups_up_to_32_bits / java_writes_arrays_and_payloads contradicted by evaluation on %s (model bug)" % T,
+                            if me.get("hex") != want:
+                                run.violation("corr", "theorem java_packs_groups_up_to_32_bits / java_writes_arrays_and_payloads / java_child_serializer_writes_reference contradicted by evaluation on %s (model bug)" % T,
                                               {"pdl": d["text"], "type": T, "value": v, "model": me, "reference": rf,
                                                "corr": "thm:java_packs_groups_up_to_32_bits"}, found_input=False)
                 if r.get("r") == "badvalue":
